@@ -76,6 +76,8 @@ def build_corpus(base: Path):
             items.append((str(p), rel, True))
     # byte-identical contents under names of different languages
     same = {"c_vs_cpp": ("int outer(int a) {\n  int inner(int b) {\n    return b;\n  }\n  return inner(a);\n}\n", ["same/nested.c", "same/nested.cpp", "same/nested.cs"]),
+            "macro": (MACRO_C, ["same/walk.c", "same/walk.cpp"]),
+            "whole_names": ("def rule(a):\n    return a\n", ["same/BUILD", "same/sub/BUILD.bazel", "same/rule.py"]),
             "js_vs_ts": ("function typed(a: number): string {\n  return a;\n}\nconst f = (x) => {\n  return x;\n};\n", ["same/typed.js", "same/typed.ts"]),
             "empty": ("", ["same/__init__.py", "same/index.js"])}
     for text, rels in same.values():
@@ -101,6 +103,9 @@ def build_corpus(base: Path):
     return items
 
 
+MACRO_C = "int walk(struct node *head) {\n  int n = 0;\n  list_for_each(p, head) {\n" + "".join(f"    n += {i};\n" for i in range(38)) + "  }\n  return n;\n}\n"
+
+
 def build_trees(base: Path):
     t = base / "T"
     u = base / "U"
@@ -109,6 +114,13 @@ def build_trees(base: Path):
         "proto/message_pb2.py": tree.flat_file("Python", [2]), "lib/x/y/z.c": tree.flat_file("C", [16]), "lib/k.java": tree.flat_file("Java", [5, 6]),
         "zz/last.ts": tree.flat_file("TypeScript", [3]), "aa/first.cs": tree.flat_file("C#", [2]), "same/nested.c": "int f(int a) {\n  return a;\n}\n",
         "same/nested.cpp": "int f(int a) {\n  return a;\n}\n",
+        # byte-identical files that the two languages measure differently (the macro block is a nested scope in C++ only)
+        "dup/walk.c": MACRO_C, "dup/walk.cpp": MACRO_C,
+        # names Pygments recognises as a whole (build files are Python to Pygments), next to names it maps elsewhere or nowhere
+        "BUILD": "def rule(a):\n    return a\n", "Makefile": "all:\n\techo hi\n", "LICENSE": "text\n", "pkg/BUILD.bazel": "def r2(a):\n    return a\n",
+        "pkg/WORKSPACE.bazel": "x = 1\n", "pkg/SConstruct": "def s(a):\n    return a\n", "pkg/Dockerfile": "FROM x\n",
+        # configured exclusions with a re-include: the order of the patterns matters (last match wins)
+        ".codelimit.yml": "exclude:\n  - \"generated/*\"\n  - \"!generated/api.py\"\n  - \"proto/*\"\n  - \"!proto/message_pb2.py\"\n  - \"zz\"\n  - \"!zz/last.ts\"\n",
         # several hidden folders side by side (none of them in the built-in exclusions), each holding supported files
         ".storybook/main.js": tree.flat_file("JavaScript", [4]), ".husky/hook.py": tree.flat_file("Python", [3]), ".a/x.py": tree.flat_file("Python", [2]),
         ".b/y.c": tree.flat_file("C", [2]), ".c/z.java": tree.flat_file("Java", [2]), "src/.h1/a.py": "x = 1\n", "src/.h2/b.py": tree.flat_file("Python", [5]),
@@ -170,7 +182,8 @@ def check_files_history(case):
 
 def check_tree_session(case):
     fx = fixture()
-    req = {"mode": "trees", "t": fx.t, "u": fx.u if case.get("foreign") else None, "walk_seed": case.get("walk_seed", 1), "u_excludes": case.get("u_excludes", [])}
+    req = {"mode": "trees", "t": fx.t, "u": fx.u if case.get("foreign") else None, "walk_seed": case.get("walk_seed", 1), "u_excludes": case.get("u_excludes", []),
+           "permute_first": bool(case.get("permute_first"))}
     out = run_worker(req, case["hashseed"])
     names = ["first scan", "scan after a foreign tree", "scan with permuted directory order"]
     for name, d in zip(names, out["reports"]):
@@ -235,6 +248,7 @@ def gen(col, seed, n_files, n_trees, max_files):
     @st.composite
     def tree_sessions(draw):
         return {"kind": "trees", "hashseed": draw(hashseeds), "foreign": draw(st.sampled_from([True, True, False])), "walk_seed": draw(st.integers(0, 10**6)),
+                "permute_first": draw(st.booleans()),
                 "u_excludes": draw(st.lists(st.sampled_from(["src/", "*.py", "same/nested.c", "lib/*", "zz"]), max_size=3))}
 
     def body_trees(case):
